@@ -15,15 +15,14 @@ From Stab.proofs Require Import ConcP.
 (* the shape of the source the model depends on (regenerated from handler.py & co. on every check) *)
 Theorem C04_source_shape :
   conc_shape_ok = true /\ claim_uses_expected_phase = true /\ claim_phase_fresh = NOT_STARTED /\ claim_phase_zombie = RUNNING /\
-  claim_conc_error_swallowed = true /\ plan_conc_error_swallowed = true /\ mutex_requeue_increment = 1%Z /\
+  mutex_requeue_increment = 1%Z /\
   join_tracking_max_tries = 5%Z /\ join_tracking_rereads = true /\
   (* the CAS shapes of store_stage (Gen_Occ, from transaction.py / stage_ops.py): version always, status with expected_phase *)
   txn_phase_where_version && txn_phase_where_status && txn_phase_where_id && txn_nophase_where_version && txn_nophase_where_id &&
   plain_phase_where_version && plain_phase_where_status && plain_nophase_where_version && txn_rowcount_check && plain_rowcount_check &&
   txn_ctx_rollback && negb plain_rollback_on_error = true.
 Proof.
-  exact (conj eq_refl (conj eq_refl (conj eq_refl (conj eq_refl (conj eq_refl (conj eq_refl (conj eq_refl (conj eq_refl
-        (conj eq_refl eq_refl))))))))).
+  exact (conj eq_refl (conj eq_refl (conj eq_refl (conj eq_refl (conj eq_refl (conj eq_refl (conj eq_refl eq_refl))))))).
 Qed.
 
 (* OCC: whatever the interleaving, a stage object held by a worker is never newer than the row, and when it has the
@@ -82,11 +81,13 @@ Definition f8_state : state :=
 Definition f8_workers : list wkind := [WStart 7 1 0; WSignal 8 1 0].
 
 Theorem C04_nonclaimant_bump_refuted :
+  claim_conc_error_swallowed = true ->        (* handler.py: `except ConcurrencyError: ... return` after the claim *)
   exists s ks sched j,
     (* before: NOT_STARTED, READY, and a worker is about to handle its StartStage *)
     not_started s j = true /\ ready_now s j = true /\ In (WStart 7 j 0) ks /\
     lost_start (run_conc sched (s, map spawn ks)) j = true.
 Proof.
+  intros Hsw. first [discriminate Hsw|idtac].
   exists f8_state, f8_workers, [0; 0; 1; 1; 0; 0; 1], 1.
   repeat split; try (vm_compute; reflexivity). left. reflexivity.
 Qed.
@@ -94,13 +95,18 @@ Qed.
 (* the same writer between the claim commit and the plan commit: the plan commit loses its CAS, is swallowed too
    ("shouldn't happen"), and the stage stays RUNNING with _plan_pending and no StartTask *)
 Theorem C04_plan_lost_to_bump_refuted :
+  plan_conc_error_swallowed = true ->         (* handler.py: `except ConcurrencyError: ... return` after the plan commit *)
   exists s ks sched j,
     not_started s j = true /\ ready_now s j = true /\ In (WStart 7 j 0) ks /\
     lost_plan (run_conc sched (s, map spawn ks)) j = true.
 Proof.
+  intros Hsw. first [discriminate Hsw|idtac].
   exists f8_state, f8_workers, [0; 0; 0; 1; 1; 0; 0; 1], 1.
   repeat split; try (vm_compute; reflexivity). left. reflexivity.
 Qed.
+
+(* both premises are `true` in coq/gen/Gen_Conc.v on the current tree (regenerated on every check and reported in the
+   evidence); when a repair turns one of them false the corresponding finding is stale and its theorem vacuous *)
 
 (* ---- non-vacuity ---- *)
 (* two workers race for the join of a diamond: exactly one start, one StartTask *)
